@@ -17,7 +17,10 @@ CONSTANTS MaxLen, Methods
 VARIABLES chain, done
 vars == <<chain, done>>
 Init == chain = <<>> /\ done = FALSE
-Add(m) == ~done /\ Len(chain) < MaxLen /\ chain' = Append(chain, m) /\ UNCHANGED done
+\* large values (see AllMethods): at most one of them per chain - beyond 64 KiB a buffer is not pooled, by design
+Big == {"StrBig", "BytesBig"}
+Add(m) == /\ ~done /\ Len(chain) < MaxLen /\ (m \in Big => \A i \in 1..Len(chain) : chain[i] \notin Big)
+          /\ chain' = Append(chain, m) /\ UNCHANGED done
 Stop == ~done /\ Len(chain) > 0 /\ done' = TRUE /\ UNCHANGED chain
 Next == (\E m \in Methods : Add(m)) \/ Stop
 Spec == Init /\ [][Next]_vars
@@ -27,7 +30,11 @@ AllMethods == {"Str", "Strs", "Bytes", "Hex", "Bool", "Bools", "Int", "Ints", "I
                "Uint", "Uints", "Uint8", "Uints8", "Uint16", "Uints16", "Uint32", "Uints32", "Uint64", "Uints64", "Float32", "Floats32", "Float64", "Floats64",
                "Time", "Times", "Dur", "Durs", "TimeDiff", "Timestamp", "Err", "AnErr", "Dict", "Array", "ArrayM", "Object", "EmbedObject", "RawJSON", "Type", "Func",
                \* the same methods with empty / nil arguments ("all argument values")
-               "ArrayEmpty", "DictEmpty", "StrsEmpty", "IntsNil", "BytesEmpty", "StrEmpty", "ErrNil", "TimesEmpty"}
+               "ArrayEmpty", "DictEmpty", "StrsEmpty", "IntsNil", "BytesEmpty", "StrEmpty", "ErrNil", "TimesEmpty",
+               \* one large value: the buffer grows to the largest capacity that is still pooled (Str: 60 000 bytes, capacity exactly
+               \* 64 KiB; Bytes: 45 000 bytes, 48 KiB and - with more fields after it - 64 KiB)
+               "StrBig", "BytesBig"}
+
 \* ArrayM: Array with a pointer LogArrayMarshaler (the temporary *Array comes from and returns to the pool inside the call)
 \* methods that take an object from a pool (and must give it back, also when the event is filtered)
 Pooled == {"Dict", "Array"}
